@@ -45,6 +45,11 @@ CHECKS = {
         text="Every reachable quiescent state of the TLC model is a crash/resume point and every outgoing state-changing edge a continuation: the real interpreter is snapshotted there (valid JSON), restored with from_snapshot (+start on the async engine), and the same step is performed on original and restored interpreter, which must agree with each other (configuration, history, context, status, output, error flag, ordered actions); re-snapshotting reproduces the snapshot and an earlier snapshot is unaffected by later execution. spec/SnapCases.tla enumerates every single-point corruption with the demanded verdict; each is applied to the real from_snapshot on both engines.",
         design="DESIGN.md section 8 C12",
         note="Trusted: TLC, exporter, recorder. Child actors in snapshots are not covered by this check. Pending timers / in-flight services are excepted by the property."),
+    "C17": dict(
+        technique="TLC checks the generator's protocol (spec/Codegen.tla: render, verify all, write; invariants NoWriteBeforeVerified, AllOrNothing) and validates the observation of every real `xsm generate-template` invocation (spec/CodegenObs.tla); 'rebuilds the source machine' is decided against Norm(J) computed by TLC from spec/Frontend.tla; the harness runs the real CLI, diffs the directory, runs --check and a second generation, imports the output in a fresh process and reads the built machine back",
+        text="Per invocation (machine x template in {pythonic-builder, pythonic-functional, pythonic-class, class-json, function-json} x async yes/no x 1/2 files): exit status and directory before/after (refusal writes nothing), every written file parses, imports silently in a fresh process (no output, no new files, no payload), pythonic templates build a machine whose normal form equals Norm(J) (states, kinds, initial/history, resolved targets, guards with structure and params, actions with params, delays, invokes, tags, meta, context) and whose configurations along a fixed event sequence equal those of create_machine(json) under the same logic; JSON-loading templates: create_machine(json, generated logic) binds every referenced name; --check on fresh output exits 0; regeneration is byte-identical. Machines: family W, G, S, H, X, V, R, E and identifier-named twins, hostile / colliding names (quote, docstring, newline, comment breakers around a sentinel-creating payload), the Stately corpus.",
+        design="DESIGN.md section 8 C17",
+        note="Trusted: TLC; harness/cgworker.py (import + rebuild in a subprocess); Frontend.tla's Norm as the meaning of the JSON (library's own reading where the spec classes a Stately export as not plainly interpretable). Custom state ids are excluded from the comparison (the generator resolves them into targets). Text-level clauses (valid Python, data-only strings, byte identity) are observations; the specification states which outcomes are allowed."),
     "C18": dict(
         technique="TLA+ specification of the config front end (spec/Frontend.tla: Norm = the machine a raw config denotes, Probs/Class = which configs cannot be interpreted, Apply = 17 documented respellings, single-point corruptions) enumerated by TLC (spec/MCFrontend.tla); every respelt / corrupted config built with the real create_machine and compared with the specification (normal form read back from the library's parse, exception class escaping create/start/send), plus cross-replay of the original machine's SCCore state graph on the respelt machine's real engines",
         text="Rewrites: for every machine of families W (random mix of spellings over every construct) and T/H/D/S/R/G/E/X/V/A and every rewrite set in {none, all, singletons, random subsets; thorough: all pairs} TLC checks Norm(Apply(J, rs)) = Norm(J) on the spec and emits the respelt config; the harness requires nf_lib(respelt) = nf_lib(original) = Norm(original), the same final configuration after a fixed probe, and replays every TLC edge of the original machine's behaviour graph on the respelt machine's real sync/async engine (state and full log). Corruptions: every node x 11 representative wrong-typed values (quick: a 1/stride sample of nodes); TLC classifies reject / lazy / either / accept(+Norm); observed: raw error = violation always, silent acceptance = violation when reject is demanded, Norm compared when accepted. Negative family: 15 uninterpretable configs driven to first use must raise an XStateMachineError subclass.",
